@@ -776,6 +776,19 @@ func gpgMinHashBytes(k *keyInfo) int {
 	return 0
 }
 
+// textForGPG: texts on whose canonical form gpg's --textmode and RFC 4880 agree.
+// A CR that is not part of a CRLF has no agreed meaning, and gpg's line reader
+// mishandles NUL bytes in an unterminated last line (observed with 2.2.40).
+// gpg also refuses text lines longer than 19995 characters.
+func textForGPG(msg []byte) bool {
+	for _, l := range bytes.Split(msg, []byte{'\n'}) {
+		if len(l) > 19000 {
+			return false
+		}
+	}
+	return !refpgp.HasStrayCR(msg) && bytes.IndexByte(msg, 0) < 0
+}
+
 func fprOf(k *keyInfo) string {
 	return strings.ToUpper(hex.EncodeToString(k.ent.PrimaryKey.Fingerprint[:]))
 }
@@ -813,15 +826,15 @@ func c44GoToGPG(g *gpgEnv, cs *c44Case, out []byte, usedHash crypto.Hash) (skip 
 	if cs.op == "symmetric" && !gpgPassOK(cs.pass) {
 		return "passphrase not expressible on gpg's command line", nil
 	}
-	if strings.Contains(cs.op, "text") && refpgp.HasStrayCR(cs.msg) {
-		return "text with stray CR has no agreed canonical form", nil
+	if strings.Contains(cs.op, "text") && !textForGPG(cs.msg) {
+		return "not a text gpg's text mode handles like RFC 4880 (stray CR, NUL or over-long line)", nil
 	}
 	check := func() (string, error) {
 		switch cs.op {
 		case "encrypt", "sign", "symmetric":
 			args := []string{"--decrypt"}
 			if cs.op == "symmetric" {
-				args = []string{"--passphrase", string(cs.pass), "--decrypt"}
+				args = []string{"--passphrase-file", g.file(cs.pass), "--decrypt"}
 			}
 			so, se, rc, e := g.run(out, args...)
 			if e != nil {
@@ -917,15 +930,15 @@ func c44GPGToGo(g *gpgEnv, p *keyPool, cs *c44Case, bufSize int) (skip string, e
 			return "passphrase not expressible on gpg's command line", nil
 		}
 		mode := []string{"0", "1", "3"}[int(cs.randSrc>>16)%3]
-		args = append(args, "--passphrase", string(cs.pass), "--s2k-mode", mode, "--s2k-digest-algo", c44HashName[cs.hash], "--s2k-cipher-algo", c44CipherName[cs.cipher])
+		args = append(args, "--passphrase-file", g.file(cs.pass), "--s2k-mode", mode, "--s2k-digest-algo", c44HashName[cs.hash], "--s2k-cipher-algo", c44CipherName[cs.cipher])
 		if mode == "3" {
 			args = append(args, "--s2k-count", fmt.Sprint([]int{1024, 65536, 1000000}[int(cs.randSrc>>20)%3]))
 		}
 		args = append(args, "--symmetric")
 	case "detach", "detach-armor", "detach-text", "detach-text-armor":
 		if strings.Contains(cs.op, "text") {
-			if refpgp.HasStrayCR(cs.msg) {
-				return "text with stray CR has no agreed canonical form", nil
+			if !textForGPG(cs.msg) {
+				return "not a text gpg's text mode handles like RFC 4880 (stray CR, NUL or over-long line)", nil
 			}
 			args = append(args, "--textmode")
 		}
